@@ -41,7 +41,7 @@ class Ctx:
         return self._cdefs[modname]
 
     # ------------------------------------------------------------------ obligation helpers
-    def ob(self, rule: str, kind: str, where, text: str, ok: bool, detail: str, node: Optional[ast.AST] = None, nontrivial=True):
+    def ob(self, rule: str, kind: str, where, text: str, ok: bool, detail: str, node: Optional[ast.AST] = None, nontrivial=True, undecided=False):
         """where: Func or file-ish string; text: normalised construct text."""
         if isinstance(where, Func):
             file = where.module.relpath
@@ -49,7 +49,12 @@ class Ctx:
         else:
             file = str(where)
             line = getattr(node, "lineno", 0) if node is not None else 0
-        return self.rep.ob(rule, kind, construct(where, text), ok, detail, file, line, nontrivial)
+        return self.rep.ob(rule, kind, construct(where, text), ok, detail, file, line, nontrivial, undecided)
+
+    def undecided(self, rule: str, kind: str, where, text: str, detail: str, node: Optional[ast.AST] = None):
+        """The rule cannot locate the construct it reasons about (the code at the anchor was reshaped beyond what the rule
+        understands).  Nothing is claimed about it: not a violation, listed under `undecided` in the evidence."""
+        return self.ob(rule, kind, where, text, False, "UNDECIDED: " + detail, node, undecided=True)
 
 
     def import_obligations(self, rule: str, fn, *args, **kw) -> int:
@@ -69,7 +74,8 @@ class Ctx:
             self.rep = saved
         for o in tmp.obs:
             f, _, rest = o.construct.partition("::")
-            saved.ob(rule, o.kind, f"{f}::[{o.rule}] {rest}", o.ok, o.detail, o.file, o.line, o.nontrivial)
+            saved.ob(rule, o.kind, f"{f}::[{o.rule}] {rest}", o.ok, o.detail, o.file, o.line, o.nontrivial, o.undecided)
         for e in tmp.analysis_errors:
             saved.error(e)
+        saved.notes.extend(tmp.notes)
         return len(tmp.obs)
